@@ -175,8 +175,12 @@ def run_cases(mod, pid, tier, seed, ncases, violations, stats, samples, notes):
                 continue
             raise
         for msg in (mod.py_invariants(c, out) if hasattr(mod, "py_invariants") else []):
-            violations.append({"kind": "runtime", "what": msg, "case": mod.describe(c), "impl": mod.describe_out(out),
-                               "failing_input": True})
+            # a message is a string, or dict(msg=..., known_class=...) to attribute it to a known finding
+            v = {"kind": "runtime", "what": msg if isinstance(msg, str) else msg["msg"], "case": mod.describe(c),
+                 "impl": mod.describe_out(out), "failing_input": True}
+            if isinstance(msg, dict) and msg.get("known_class"):
+                v["known_class"] = msg["known_class"]
+            violations.append(v)
         coq_cases.append(cc)
         kept.append((c, out))
         k = mod.key(c)
